@@ -12,9 +12,22 @@ def main():
     ap.add_argument('--replay')
     a = ap.parse_args()
     mod = importlib.import_module(f'harness.{a.pid}')
-    if a.replay:
-        sys.exit(mod.replay_file(a.replay))
-    sys.exit(mod.main(a.tier))
+    try:
+        if a.replay:
+            rc = mod.replay_file(a.replay)
+        else:
+            rc = mod.main(a.tier)
+    except SystemExit as e:
+        if isinstance(e.code, str):          # self-test / translator-validation failure: a harness error, never a verdict
+            print(f"HARNESS-ERROR: {e.code}")
+            sys.exit(3)
+        raise
+    except Exception as e:
+        import traceback
+        traceback.print_exc()
+        print(f"HARNESS-ERROR: {type(e).__name__}: {e}")
+        sys.exit(3)
+    sys.exit(rc)
 
 
 if __name__ == '__main__':
